@@ -87,8 +87,6 @@ package interp
 // representability in the declared result type (non-interface results) before the function is accepted.
 // Per-iteration contract of the loop over the returned expressions (each child is handled by exactly
 // one iteration of the range loop).
-//@ trusted func isInterface(t) (r)
-//@   pure
 //@ lit Interpreter.cfg case:returnStmt () ()
 //@   props C03
 //@   opt safety = off
